@@ -46,6 +46,9 @@ pub struct Recorder {
     pub print_every: bool,
     /// every (renamed) name handed to the builder so far, any builder
     pub name_pool: std::collections::BTreeSet<String>,
+    /// names that must keep their identity (used as dependency or duplicated)
+    pub sensitive: std::collections::BTreeSet<String>,
+    pub toggle_counter: usize,
 }
 
 pub fn resmap_of(v: &Variant) -> BTreeMap<Res, Cell> {
@@ -129,7 +132,21 @@ impl Recorder {
             rng,
             print_every,
             name_pool: Default::default(),
+            sensitive: Default::default(),
+            toggle_counter: 0,
         }
+    }
+
+    /// The name a system is registered under in this variant.
+    fn variant_name(&mut self, name: &str) -> String {
+        if self.variant.toggle_names && !self.sensitive.contains(name) && self.rng.gen_bool(0.5) {
+            if name.is_empty() {
+                self.toggle_counter += 1;
+                return format!("toggled name {}", self.toggle_counter);
+            }
+            return String::new();
+        }
+        self.variant.rename_of(name)
     }
 
     fn make_acc(&mut self, r: &[Res], w: &[Res]) -> HAcc {
@@ -227,6 +244,9 @@ impl Recorder {
 
     /// Builds a builder from `prog`; returns it with its builder index.
     pub fn build(&mut self, prog: &Prog) -> (DispatcherBuilder<'static, 'static>, usize) {
+        if self.next_builder == 1 {
+            prog.sensitive_names(&mut self.sensitive);
+        }
         let bidx = self.next_builder;
         self.next_builder += 1;
         self.events.push(json!({"ev":"new","b":bidx}));
@@ -324,7 +344,7 @@ impl Recorder {
                     let gid = self.next_gid;
                     self.next_gid += 1;
                     let acc = self.make_acc(r, w);
-                    let rname = self.variant.rename_of(name);
+                    let rname = self.variant_name(name);
                     let rdeps: Vec<String> = deps.iter().map(|d| self.variant.rename_of(d)).collect();
                     let before = b.verif_layout();
                     let sys = HSys {
@@ -356,7 +376,7 @@ impl Recorder {
                     let (ib, iidx) = self.build(inner);
                     let gid = self.next_gid;
                     self.next_gid += 1;
-                    let rname = self.variant.rename_of(name);
+                    let rname = self.variant_name(name);
                     let rdeps: Vec<String> = deps.iter().map(|d| self.variant.rename_of(d)).collect();
                     let before = b.verif_layout();
                     let ctx = self.ctx.clone();
